@@ -136,18 +136,38 @@ func (el *ErrorListener) ReportContextSensitivity(recognizer antlr.Parser, dfa *
 func ParseZqlString(text string) string {
 	t := strings.TrimSuffix(strings.TrimPrefix(text, `"`), `"`)
 
-	//remove golang string back slash escaping
-	t = strings.Replace(t, `\\`, `\`, -1)
+	if !strings.Contains(t, `\`) {
+		return t
+	}
 
-	//remove ZitiQL string escaping
-	t = strings.Replace(t, `\"`, `"`, -1)
-	t = strings.Replace(t, `\f`, "\f", -1)
-	t = strings.Replace(t, `\n`, "\n", -1)
-	t = strings.Replace(t, `\r`, "\r", -1)
-	t = strings.Replace(t, `\t`, "\t", -1)
-	t = strings.Replace(t, `\\`, `\`, -1)
+	// unescape in a single pass, so that the result of one escape (e.g. the backslash produced by \\) is never
+	// re-read as the start of another one
+	result := strings.Builder{}
+	for i := 0; i < len(t); i++ {
+		c := t[i]
+		if c != '\\' || i+1 == len(t) {
+			result.WriteByte(c)
+			continue
+		}
+		i++
+		switch t[i] {
+		case '"', '\\':
+			result.WriteByte(t[i])
+		case 'f':
+			result.WriteByte('\f')
+		case 'n':
+			result.WriteByte('\n')
+		case 'r':
+			result.WriteByte('\r')
+		case 't':
+			result.WriteByte('\t')
+		default:
+			result.WriteByte('\\')
+			result.WriteByte(t[i])
+		}
+	}
 
-	return t
+	return result.String()
 }
 
 var dateTimeStripper = regexp.MustCompile(`^\s*datetime\(\s*(.*?)\s*\)\s*$`)
